@@ -258,6 +258,8 @@ func runC11(c *Ctx) {
 	R.Rule("C11.R1", "element table: for elementName a, area and link (specialised analyses), with a hardening option on and a surviving attribute, the href-discovery code is reached")
 	R.Rule("C11.R2", "presence tests are token-wise: every test of a rel value for nofollow/noreferrer/noopener is a call of a helper that returns true only across an equality between an element of strings.Fields(value) and the token; a substring test (strings.Contains) does not establish presence")
 	R.Rule("C11.R3", "must-add (typestate): on every path through the hardening block with an href found, when nofollow (resp. noreferrer) is required — requireX ∨ (external ∧ requireXFullyQualified) — a rel value carrying the token is produced before the function returns: by extending an existing rel value with \" token\", by a synthesised rel attribute whose constant value holds the token, or on the true edge of a token-wise presence test; every modified attribute copy is appended before the iteration ends; tokens are never glued to a previous one. The same for noopener whenever a target=\"_blank\" is found or produced")
+	R.Rule("C11.R7", "every pass over the attribute list is one the rules know (= C12.R8, cited): no unrecognised loop edits the list and the list is never re-sliced — a de-duplication that keeps the last of two target attributes drops the _blank the rel tokens were added for")
+	attributePassesKnown(c, "C11.R7", "what the link-hardening rules established (rel tokens, target) can be undone after the fact")
 	R.Rule("C11.R6", "options survive lazy initialisation: an existing Policy is only ever updated field by field — no function stores a whole Policy value through a pointer it did not allocate (a `*p = Policy{…}` in init would reset every option set before)")
 	optionsSurviveInit(c, "C11.R6", "the link-hardening options set before the first rule are lost and links come out without rel / target")
 	R.Rule("C11.R5", "every href is noticed: an iteration of the href scan whose attribute key is href leaves the href-found flag set, whatever else it learns about the value (parse failures included)")
